@@ -16,6 +16,10 @@ def run(ctx):
                        "(daemon pins, Status, StatusAll, in-flight calls, returned error)"]
     tc.pipeline(ctx, ["converge", "recover", "nodrop"])
     e2e(ctx)
+    # free-running executions (the repository's own tracker tests + a random concurrent driver) recorded through
+    # the operation-table hooks and validated against the step-level spec OpTracker.tla
+    from props import optrace
+    optrace.run(ctx)
 
 
 def e2e(ctx):
